@@ -63,6 +63,8 @@ def qenc(x):
     n, d, tag = project.const_ratio(x)
     if tag == "big":
         return ["b", str(int(x)), ""]          # integers beyond TLC's range are compared digit for digit
+    if tag == "repr":
+        return ["b", repr(float(x)), ""]       # decimals that are not small rationals: compared by their shortest decimal
     if d == 0:
         return ["q", 0, 0]
     return ["q", n, d]
@@ -194,10 +196,11 @@ def domain(ctx, res):
     rng = random.Random(ctx.seed * 23 + 9)
     classes = tlc_classes(ctx, res, ["MC_Terms_3.cfg", "MC_Terms_4q.cfg"] if ctx.quick else ["MC_Terms_3.cfg", "MC_Terms_4.cfg", "MC_Terms_5.cfg"])
     cs = [None, 1, 2, -3, 0.5, 0, 12, -1, 9007199254740993, 123456789012345678901]
-    vs = [None, "x", "z"]
+    vs = [None, "x", "z", "X"]
     es = [None, 2, 0, -1, 0.5, 1, 3]
     triples = [(c, v, e) for c in cs for v in vs for e in es if not (v is None and (e is not None or c is None))]
-    written = [t for t in triples if not (t[0] == -1)] + [(2, "x", 9007199254740993), (None, "z", 2 ** 64 + 1)]
+    written = [t for t in triples if not (t[0] == -1)] + [(2, "x", 9007199254740993), (None, "z", 2 ** 64 + 1), (1.0000000001, "x", 2), (0.9999999999, "z", None)]
+    near_one = [(c, v, e) for c in (1.0000000001, 0.9999999999, 1.000001, -1.0000000001, 1.0) for v in ("x",) for e in (None, 2, 0)]
     triples = [t for t in triples if t[0] is None or abs(t[0]) < 2 ** 30]      # make_term is exercised with ordinary coefficients   # "-1x" is written with its coefficient; "-x" is covered below
     ns = list(range(1, 501 if ctx.quick else 20001))
     like_forms = FORMS + ["(x + 1)^2", "0.5x", "x^0", "2x * y", "x * y", "y * x", "4", "x / 2"]
@@ -209,19 +212,19 @@ def domain(ctx, res):
             "%d triples (c in absent,1,2,-3,0.5,0,12,-1; v in absent,x,z; e in absent,2,0,-1,0.5,1,3); factor(n) for n = 1..%d; terms_are_like on %d ordered pairs of %d forms; "
             "all term predicates on %d non-equation trees" % (len(classes), ", a sample of 4-addend classes" if ctx.quick else ", all 4-addend and sampled 5-addend classes",
                                                            len(triples), ns[-1], len(pairs), len(like_forms), len(texts)))
-    return classes, written, triples, ns, pairs, texts, rule
+    return classes, written, triples, near_one, ns, pairs, texts, rule
 
 
 def run(ctx, cases=None):
     res = Result()
     from multiprocessing import Pool
     if cases is None:
-        classes, written, triples, ns, pairs, texts, res.rule = domain(ctx, res)
+        classes, written, triples, near_one, ns, pairs, texts, res.rule = domain(ctx, res)
         with Pool(16) as pool:
             events = pool.map(class_event, classes, chunksize=8)
             events += pool.map(triple_event, written)
             events += [triple_event((None, v, e)) for v in ("x",) for e in (None, 2)]
-            events += pool.map(make_event, triples)
+            events += pool.map(make_event, triples + near_one)
             events += pool.map(factor_event, ns, chunksize=200)
             events += pool.map(like_event, pairs, chunksize=20)
             events += [e for e in pool.map(calls_event, texts, chunksize=50) if e is not None]
